@@ -22,6 +22,7 @@ import (
 	"time"
 
 	"github.com/martian-lang/martian/martian/core"
+	"github.com/martian-lang/martian/martian/syntax"
 )
 
 // TASpec is one pipestance run, serialisable.
@@ -49,6 +50,10 @@ type TASpec struct {
 	RestartAfterFail bool     `json:"restart_after_fail"`
 	PostProcessCrash int      `json:"postprocess_crash"`
 	TimeoutS         int      `json:"timeout_s"`
+	SlowJobs         string   `json:"slow_jobs,omitempty"` // TAOpts.SlowJobs
+	Echo             bool     `json:"echo,omitempty"`      // stages named ECHO*: first output = first input
+	Cluster          bool     `json:"cluster,omitempty"`   // TAOpts.Cluster
+	AgeHeartbeats    bool     `json:"age_heartbeats,omitempty"`
 }
 
 type TreeEntry struct {
@@ -168,6 +173,27 @@ func runSpec(spec *TASpec, scratch string) *TAResult {
 		opts.CrashAt = map[int]bool{}
 		for _, c := range spec.CrashAt {
 			opts.CrashAt[c] = true
+		}
+	}
+	opts.SlowJobs = spec.SlowJobs
+	opts.Cluster = spec.Cluster
+	opts.AgeHeartbeats = spec.AgeHeartbeats
+	var run *TARun
+	if spec.Echo {
+		// ECHO* stages (program families): the first output is the first input, so that run-time
+		// flags / collections / key sets are chosen by the family instead of the fake stage's PRNG
+		opts.OutsHook = func(job *TAJob, outs map[string]interface{}) {
+			if run == nil || !strings.HasPrefix(job.StageName, "ECHO") || job.ShellName == "split" {
+				return
+			}
+			stage, _ := run.Ast.Callables.Table[job.StageName].(*syntax.Stage)
+			if stage == nil || len(stage.InParams.List) == 0 || len(stage.OutParams.List) == 0 {
+				return
+			}
+			var args map[string]interface{}
+			if json.Unmarshal(job.Args, &args) == nil {
+				outs[stage.OutParams.List[0].Id] = args[stage.InParams.List[0].Id]
+			}
 		}
 	}
 	run, err := NewTARun(spec.Src, scratch, spec.Seed, opts)
